@@ -64,6 +64,13 @@ def jobs(tier):
             for pre in (["false_region"], ["true_region"], ["aborted_region"]):
                 js.append(dict(name="%s/n4/guard-inside-after-%s" % (e.name, pre[0]), entry=e.name, backend="snarkjs",
                                cfg=dict(n=4, r=2, guard="sym", bound=(1 << 64), inner_prelude=pre), tier=tier, weight=3))
+    if tier == "quick":
+        # the operations whose hints come from the backend (field inverses) under the two non-default fields
+        for be in ("zkifbellman", "zkifbulletproofs"):
+            for e in CAT.build(4, "quick"):
+                if e.name in ("int_truediv_sc3", "int_ne_ss", "int_eq_ss", "assert_nonzero", "assert_ne_ss", "arr_read_s2", "int_truediv_ss"):
+                    js.append(dict(name="%s/n4/plain/%s" % (e.name, be), entry=e.name, backend=be,
+                                   cfg=dict(n=4, r=2, guard=None, bound=None), tier=tier, weight=4))
     if tier == "thorough":
         for be in ("zkinterface", "zkifbellman", "zkifbulletproofs"):
             for e in CAT.build(4, "quick"):
@@ -74,12 +81,64 @@ def jobs(tier):
     return js
 
 
+def concrete_points(env, job, entry):
+    """candidate plain-integer inputs (those the entry's assumptions admit)"""
+    from symtrace.concrete import Kit
+    names = list(entry.ins) + (["g"] if job.cfg.get("guard") == "sym" else
+                               ["g%d" % i for i in range(job.cfg["guard"][1])] if isinstance(job.cfg.get("guard"), (tuple, list)) else [])
+    P = env.P or (1 << 61) - 1
+    for f in (lambda i: 3 + 2 * i, lambda i: i, lambda i: 1, lambda i: -1 - i, lambda i: 0, lambda i: 2 + i, lambda i: 7 - 3 * i,
+              lambda i: 1001 + 7 * i, lambda i: P - 1 - i):
+        inputs = {nm: (1 if nm.startswith("g") and nm[1:].isdigit() or nm == "g" else f(i)) for i, nm in enumerate(names)}
+        if entry.assume is not None:
+            try:
+                if not all(bool(c) for c in entry.assume(Kit(env, dict(inputs), job.cfg.get("n", 4), job.cfg.get("r", 2)))):
+                    continue
+            except Exception:
+                continue
+        yield inputs
+
+
+def concrete_judgement(env, job, entry, inputs_list, why):
+    """C01 on plain-integer runs: used where the engine cannot speak for the code (a path it cannot encode, or a path whose
+    symbolic outcome the concrete run does not reproduce).  A completed run whose recorded witness leaves a constraint
+    unsatisfied is a violation by itself (and replayable); nothing is claimed otherwise."""
+    from symtrace.concrete import run_concrete, ev_concrete
+    n = 0
+    for inputs in inputs_list:
+        out = run_concrete(env, entry, job.cfg, inputs)
+        n += 1
+        if out["outcome"] != "ok":
+            continue
+        bad = None
+        for i, (a, b, c) in enumerate(out["cons"]):
+            if (ev_concrete(a, out["pub"], out["priv"], env.P) * ev_concrete(b, out["pub"], out["priv"], env.P)
+                    - ev_concrete(c, out["pub"], out["priv"], env.P)) % env.P != 0:
+                bad = i
+                break
+        job.obligation("sat" if bad is not None else "unsat")
+        if bad is not None:
+            job.finding("c01", "constraint %d unsatisfied by the recorded witness on %s" % (bad, inputs), dict(inputs=inputs, idx=bad))
+    return n
+
+
 def run_job(env, spec):
     entry = lookup(spec)
     job = Job(spec.get("pid", PID), env, spec, entry, spec.get("catalogue", "checks.catalogue"))
     job.cfg["want_ref"] = False
     twin_done = False
-    for t in job.explore():
+    try:
+        traces = job.explore()
+    except E.Unsupported as ex:
+        n = concrete_judgement(env, job, entry, list(concrete_points(env, job, entry)), str(ex))
+        job.inconclusive("not encodable (%s): judged on %d plain-integer runs only" % (str(ex)[:100], n))
+        return job.done()
+    # paths whose symbolic outcome the concrete run did not reproduce are not judged symbolically (harness error); the
+    # concrete run at that point is judged on its own
+    tv_inputs = [t.extra["tv_inputs"] for t in job.traces if t not in traces and t.extra.get("tv_inputs")]
+    if tv_inputs:
+        concrete_judgement(env, job, entry, tv_inputs, "translator validation failed")
+    for t in traces:
         if not t.path.ok:
             continue
         pi = t.extra["idx"]
